@@ -795,6 +795,42 @@ func checkFlatten(c rc) {
 				}
 			}
 		}
+		// a failed recursion is noticed at once: inside a loop over the children, the error
+		// of THIS child's recursion is tested in the same iteration (testing the variable
+		// after the loop sees the last child's error only, and the next child's recursion
+		// restarts from the nil accumulator of the failed one)
+		for _, call := range callsTo(fn, fn) {
+			if !path.InCycle(call.Block()) {
+				continue
+			}
+			loop := path.LoopBlocks(call.Block())
+			tested := false
+			for b := range loop {
+				iff := path.BlockIf(b)
+				if iff == nil {
+					continue
+				}
+				cd, ok := path.CondOf(iff)
+				if !ok {
+					continue
+				}
+				v := cd.X
+				if path.IsNil(v) {
+					v = cd.Y
+				} else if !path.IsNil(cd.Y) {
+					continue
+				}
+				if ex, ok := path.Unspill(v).(*ssa.Extract); ok && ex.Index == 1 && ex.Tuple == call.(ssa.Value) {
+					// one of the two edges leaves the loop
+					for _, sc := range b.Succs {
+						if !loop[sc] {
+							tested = true
+						}
+					}
+				}
+			}
+			c.ob("ER2", "gogu.baseFlatten", "a child's error is tested before the next child", p.InstrPos(call), tested, "the error of a recursive call made in a loop is not tested inside that loop: only the last child's error survives, and a malformed element that is not the last one is silently dropped together with everything before it")
+		}
 		c.ob("ER2", "gogu.baseFlatten", "unsupported value is an error", c.fpos(fn), okDef, "a value that is neither T, []T nor []any must end in an error return (not a silent skip)")
 		// the accumulator only ever grows by appends (it never adopts a leaf's own storage)
 		for _, b := range fn.Blocks {
